@@ -26,6 +26,10 @@ def decBreak (j : Json) : Dec BreakSet := do
   let cs := s.toList
   return fun c => cs.contains c
 
+/-- `"B": null` = the real function was called without `word_break_chars`: the model uses the default
+    regenerated from the source (Model/C17.lean `lineWordsD` …), the harness does not send a copy of it -/
+def decBreakOpt (j : Json) : Dec (Option BreakSet) := asOpt decBreak j
+
 def decStr (j : Json) : Dec Str := do return (← asStr j).toList
 def decOptStr (j : Json) : Dec (Option Str) := asOpt decStr j
 def decWords (j : Json) : Dec (List Str) := asList decStr j
@@ -71,34 +75,34 @@ def handle (op : String) (args : Json) : Dec Json := do
   match op with
   | "line_words" =>
     let cc ← decCharClass (← field args "cls")
-    let B ← decBreak (← field args "B")
+    let B ← decBreakOpt (← field args "B")
     let ls ← asList decOptStr (← field args "lines")
-    return batch jWords (lineWords cc B) ls
+    return batch jWords (lineWordsD cc B) ls
   | "re_split" =>
     let cc ← decCharClass (← field args "cls")
     let ls ← asList decStr (← field args "lines")
     return batch jWords (fun l => (.ok (reSplitB cc l) : Res _)) ls
   | "page_lines_words" =>
     let cc ← decCharClass (← field args "cls")
-    let B ← decBreak (← field args "B")
+    let B ← decBreakOpt (← field args "B")
     let ls ← asList decOptStr (← field args "lines")
-    return answer (jList jWords) (pageLinesWords cc B ls)
+    return answer (jList jWords) (pageLinesWordsD cc B ls)
   | "split_line_words" =>
     let ws ← asList decWords (← field args "words")
     return batch (fun (a, b, c) => Json.arr #[jWords a, jWords b, jWords c]) splitLineWords ws
   | "remove_wbc" =>
-    let B ← decBreak (← field args "B")
+    let B ← decBreakOpt (← field args "B")
     let ps ← asList (asPair decStr decStr) (← field args "pairs")
-    return batch jS (fun (e, s) => removeWordBreakChars B e s) ps
+    return batch jS (fun (e, s) => removeWordBreakCharsD B e s) ps
   | "remove_hyphen" =>
     let ws ← decWords (← field args "words")
     return batch jS removeHyphen ws
   | "determine" =>
     let cc ← decCharClass (← field args "cls")
-    let B ← decBreak (← field args "B")
+    let B ← decBreakOpt (← field args "B")
     let det ← asOpt decDetector (← field args "det")
     let ps ← asList (asPair decWords decWords) (← field args "pairs")
-    return batch jDecision (fun (p, c) => determine cc det B p c) ps
+    return batch jDecision (fun (p, c) => determineD cc det B p c) ps
   | _ => .error s!"unknown op {op}"
 
 end Pagexml.Drv.C17
